@@ -51,7 +51,9 @@ RULE = (
     "(topology, family, parameter) configuration, followed by random strings of length <= 40 with random scripts; distinct = "
     "(configuration, interleaving string) for the enumeration and (topology, length class, queue-depth class, command kinds, features) for "
     "random ones; plus real DNS/TCP/UDP layers fed 2-7 generated events (valid/malformed DNS messages, data, one final close) live vs. with delayed "
-    "hook completions (distinct = layer, #events, hooks seen, closes); non-trivial iff at least one event arrived while its layer (or a layer in front of it) was waiting / undecided / establishing"
+    "hook completions (distinct = layer, #events, hooks seen, closes); plus long-pause cases (24 quick / 204 thorough and 0.4% of the random cases): "
+    "255 ... 5000 events (powers of two and their neighbours) arrive during ONE pause of a probe / router / NextLayer / tunnel or of a real "
+    "TCP/UDP/DNS layer with one message hook pending; non-trivial iff at least one event arrived while its layer (or a layer in front of it) was waiting / undecided / establishing"
 )
 ASSUMPTIONS = [
     "every outstanding command is eventually completed exactly once by the environment (what ConnectionHandler guarantees); the run is closed by completing outstanding commands oldest-first",
